@@ -234,12 +234,13 @@ def run(args):
     """args: seed, max_examples, tolerated (list of kinds listed as known findings)"""
     import sys
     sys.path.insert(0, "/repo")
-    from hypothesis import given, settings, seed, HealthCheck
+    from hypothesis import given, settings, seed, HealthCheck, Phase
     tolerated = set(args.get("tolerated") or [])
     state = {"examples": 0, "distinct": set(), "fail": None, "known": {}, "classes": {}, "samples": []}
 
     @settings(max_examples=args.get("max_examples", 200), database=None, deadline=None,
-              suppress_health_check=list(HealthCheck), report_multiple_bugs=False, derandomize=False)
+              suppress_health_check=list(HealthCheck), report_multiple_bugs=False, derandomize=False,
+              phases=[Phase.generate, Phase.shrink])
     @seed(args.get("seed", 0))
     @given(strategy())
     def prop(recs):
